@@ -180,7 +180,8 @@ impl<R: DynamicChannelRegion> RegionHandler for DynamicChannelPlan<R> {
     }
 
     fn get_datarate(&self, dr: u8) -> Option<&Datarate> {
-        R::datarates()[dr as usize].as_ref()
+        // `dr` can be any 4-bit value taken from a received frame; DR15 is beyond the table.
+        R::datarates().get(dr as usize).and_then(|d| d.as_ref())
     }
 
     fn select_tx_channel<RNG: RngCore>(
